@@ -272,9 +272,15 @@ structure DialParams where
   /-- `DialWithOptions` (non-multiplexed path) holds no broker-wide lock while it waits for the connection info: its
   five-second wait runs concurrently with every other dial's -/
   waitsUnlocked : Bool
+  /-- `clientStreams` — where a side files, or waits for, the connection info of the IDs it DIALS — is touched only by
+  the dial path (`getClientStream`, `timeoutWait`) and the constructor: accepting an ID does not read or clear it -/
+  acceptLeavesDialState : Bool
+  /-- `dialGRPCConn` passes `grpc.FailOnNonTempDialError(true)`: a dial made with the caller's own `grpc.WithBlock()` ends
+  with the connection error instead of retrying for ever (the broker dials without a deadline) -/
+  dialFailsFast : Bool
   deriving DecidableEq, Repr
 
-def DialParams.Good (D : DialParams) : Prop := D.optsFresh = true ∧ D.waitsUnlocked = true
+def DialParams.Good (D : DialParams) : Prop := D.optsFresh = true ∧ D.waitsUnlocked = true ∧ D.acceptLeavesDialState = true ∧ D.dialFailsFast = true
 
 instance (D : DialParams) : Decidable D.Good := by unfold DialParams.Good; exact inferInstance
 
@@ -289,5 +295,16 @@ def dialReaches (D : DialParams) (id other : Nat) (otherWroteLast : Bool) : Nat 
 which this dial has returned: one window when the waits overlap, one window per earlier dial more when a broker-wide
 lock serialises them. -/
 def dialReturnsBy (D : DialParams) (window k : Nat) : Nat := if D.waitsUnlocked then window else window * (k + 1)
+
+/-- The IDs a side accepts and the IDs it dials are two number spaces of their own (each broker's `NextId` counts from 1, so
+they overlap).  `filed`: this side has the peer's connection info for number `n` filed (or a dial waiting for it).  Is
+that still so after this side ACCEPTS its own number `m`? -/
+def dialStateAfterAccept (D : DialParams) (n m : Nat) (filed : Bool) : Bool :=
+  if D.acceptLeavesDialState then filed else (if n = m then false else filed)
+
+/-- A dial of an ID whose connection info has arrived but whose listener is gone (the peer closed it mid-negotiation):
+does `DialWithOptions` return?  Without `WithBlock` it returns a lazy connection at once; with the caller's `WithBlock` it
+returns exactly if connection errors end the dial. -/
+def gonePeerDialReturns (D : DialParams) (callerBlocks : Bool) : Bool := !callerBlocks || D.dialFailsFast
 
 end GoPlugin.GrpcBroker
